@@ -153,7 +153,7 @@ func (w *world) connect(m *mclient, oldFlow bool) bool {
 	} else {
 		cl, err = refclient.LoginAs(w.srv, addr, login, "", "")
 		if err == nil {
-			if _, ok := cl.Agreed(m.name, 1, 0, ""); !ok {
+			if _, ok := cl.Agreed(m.name, 1, core.Pick(w.c.R, []int{0, 0, 0, 2, 2, 3}), ""); !ok { // some refuse private chat and/or messages
 				err = fmt.Errorf("no reply to agreed")
 			}
 		}
